@@ -29,7 +29,7 @@ ID = "C14"
 QUICK_RUNS = 1600
 CHUNK = 20
 THOROUGH_BUDGET_S = 900
-WATCHDOG = 120.0
+WATCHDOG = 45.0
 LEVEL = "exploration"
 RULE = (
     "simulated searches as in C01 restricted to the default/forget flavours as the steering DB; both mirrors compared after every "
